@@ -14,7 +14,7 @@ import (
 
 func (g *Gen) newFnCtx(fn *ssa.Function, sp *FuncSpec) *FnCtx {
 	fc := &FnCtx{g: g, fn: fn, spec: sp, declared: map[string]string{}, sorts: map[string]string{}, assumpt: map[string]bool{},
-		locals: map[*ssa.Alloc]bool{}, callOrd: map[string]int{}, closures: map[ssa.Value]*ssa.MakeClosure{}, propFlags: map[int][]propFlag{}, ground: map[string]bool{}, localMaps: map[string]bool{}, refArr: map[string]bool{},
+		locals: map[*ssa.Alloc]bool{}, callOrd: map[string]int{}, closures: map[ssa.Value]*ssa.MakeClosure{}, propFlags: map[int][]propFlag{}, tolFlags: map[int][]propFlag{}, onlyFlags: map[int][]propFlag{}, ground: map[string]bool{}, localMaps: map[string]bool{}, refArr: map[string]bool{},
 		modMemo: map[*ssa.Function]*ModSet{}, modBusy: map[*ssa.Function]bool{}}
 	if sp.Mode == "bv" {
 		fc.m = M{ModeBV}
@@ -238,6 +238,53 @@ func (g *Gen) verifyFunction(fn *ssa.Function, sp *FuncSpec) *FnCtx {
 			o := &Oblig{Name: fmt.Sprintf("%s/propagates#%d%s", sp.Name, c.Ord, suffix), Kind: "propagates", Tags: c.Tags, goal: goal, Text: "propagates " + c.Text}
 			fc.addObligAt(o, r.block, r.seq)
 		}
+		// failure sources: a non-nil error result implies a listed callee failed on this path
+		for _, c := range sp.Only {
+			rv, ok := renv.names[c.Args[0]]
+			if !ok || kindOf(rv.T) != KIface {
+				fc.errs = append(fc.errs, fmt.Sprintf("%s: failsonly: no interface result %q", sp.Name, c.Args[0]))
+				continue
+			}
+			var fl []string
+			for _, p := range fc.onlyFlags[c.Ord] {
+				fl = append(fl, p.cond)
+			}
+			for _, f := range c.Args[1:] {
+				found := false
+				for _, p := range fc.onlyFlags[c.Ord] {
+					if p.callee == f || strings.HasSuffix(p.callee, "."+f) {
+						found = true
+					}
+				}
+				if !found {
+					fc.errs = append(fc.errs, fmt.Sprintf("%s: failsonly: %q is not called (or returns no error)", sp.Name, f))
+				}
+			}
+			fl = append(fl, renv.bool(c.Expr))
+			goal := sImp(sAnd(r.guard, sNot(sEq(rv.Sub[0].S, "0"))), sOr(fl...))
+			o := &Oblig{Name: fmt.Sprintf("%s/failsonly#%d", sp.Name, c.Ord), Kind: "failsonly", Tags: c.Tags, goal: goal, Text: "failsonly " + c.Text, Spec: c}
+			fc.addObligAt(o, r.block, r.seq)
+		}
+		// tolerated error values: once a listed callee has returned the value, this activation does not return it
+		for _, c := range sp.Tols {
+			rv, ok := renv.names[c.Args[0]]
+			if !ok || kindOf(rv.T) != KIface {
+				fc.errs = append(fc.errs, fmt.Sprintf("%s: tolerates: no interface result %q", sp.Name, c.Args[0]))
+				continue
+			}
+			var fl []string
+			for _, p := range fc.tolFlags[c.Ord] {
+				fl = append(fl, p.cond)
+			}
+			if len(fl) == 0 {
+				fc.errs = append(fc.errs, fmt.Sprintf("%s: tolerates %q does not bind to a call", sp.Name, c.Text))
+				continue
+			}
+			ev := renv.tr(c.Expr)
+			goal := sImp(sAnd(r.guard, sOr(fl...)), sNot(renv.equal(rv, ev)))
+			o := &Oblig{Name: fmt.Sprintf("%s/tolerates#%d", sp.Name, c.Ord), Kind: "tolerates", Tags: c.Tags, goal: goal, Text: "tolerates " + c.Text, Spec: c}
+			fc.addObligAt(o, r.block, r.seq)
+		}
 		// explicit frame
 		if sp.HasMod && !fc.thin {
 			fc.frameObligs(fr, r, suffix)
@@ -326,7 +373,7 @@ func (sp *FuncSpec) allTags() []string {
 	for _, t := range sp.Tags {
 		set[t] = true
 	}
-	for _, cs := range [][]*Clause{sp.Requires, sp.Ensures, sp.Invs, sp.Asserts, sp.Props} {
+	for _, cs := range [][]*Clause{sp.Requires, sp.Ensures, sp.Invs, sp.Asserts, sp.Props, sp.Tols, sp.Only} {
 		for _, c := range cs {
 			for _, t := range c.Tags {
 				set[t] = true
